@@ -20,6 +20,7 @@ A divergence on such an input is reported as KNOWN-FINDING (and, for the direct 
 only if the implementation agrees with the model of the pinned code `ec.*.pinned`).
 """
 import math
+import os
 import gmpy2
 import framework as fw
 from framework import H, L, O, B, Batch, call
@@ -32,9 +33,11 @@ META = dict(
     assumptions=[
         'model functions in Model/Ec.lean mirror ec_util.EcCurve (with fixes/D3-ec-add-double.diff applied); '
         'tie checked by this correspondence run',
-        'primality of the field prime p and the group order n of each of the nine named curves is a '
-        'hypothesis of the refinement theorems ([Fact p.Prime]); validated in every run by '
-        'gmpy2.is_prime(., 64)',
+        'primality of the field prime p and the group order n of the nine named curves: proved by the '
+        'Lean kernel from Pratt certificates (Props/C11Primes.lean, C11.curve_primes_certified) for the '
+        'numbers listed under coverage.primality_kernel_certified; for those under '
+        'coverage.primality_hypothesis_gmpy2_only it remains a hypothesis of the refinement theorems '
+        '([Fact p.Prime] / Nat.Prime n), validated in every run by gmpy2.is_prime(., 64)',
         'PointTable: m = int(math.sqrt(n)) is a float oracle passed to the model',
         'model domain: mod >= 1, n >= 1',
     ])
@@ -1083,6 +1086,31 @@ def check_primality(rep, ctxs_named):
   rep.extra['primality_checked'] = {ctx.name: [hex(ctx.p), hex(ctx.n)] for ctx in ctxs_named}
   for b in bad:
     rep.broken.append('hypothesis of the C11 refinement theorems fails (gmpy2.is_prime): ' + b)
+  primality_status(rep, ctxs_named)
+
+
+def primality_status(rep, ctxs_named):
+  """Which of the 18 numbers are proved prime by the Lean kernel (Pratt certificates emitted by
+  harness/consts/pratt.py, checked in Proofs/PrattCurves.lean, listed in Props/C11Primes.lean and
+  `C11.curve_primes_certified`) and which remain a hypothesis validated by gmpy2 only."""
+  import re
+  from consts import pratt
+  st = pratt.status()
+  src = fw.strip_comments(open(os.path.join(fw.LEAN, 'ParanoidModel', 'Proofs', 'PrattCurves.lean')).read())
+  proved = set('%s.%s' % m for m in re.findall(r'^theorem\s+(\w+)_([pn])_prime\b', src, re.M))
+  want = ['%s.%s' % (ctx.name, w) for ctx in ctxs_named for w in 'pn']
+  certified = [k for k in want if k in proved and k in st['certified']]
+  hypo = {k: st['hypothesis'].get(k, 'certificate available but no theorem in Proofs/PrattCurves.lean')
+          for k in want if k not in certified}
+  rep.extra['primality_kernel_certified'] = certified
+  rep.extra['primality_hypothesis_gmpy2_only'] = hypo
+  for k in sorted(proved - set(st['certified'])):
+    # the theorem exists but the regenerated certificate is empty: the Lean build has failed already
+    rep.broken.append('Pratt certificate for %s no longer available for the regenerated constant: %s'
+                      % (k, st['hypothesis'].get(k, 'not a CURVE_FACTORY prime any more')))
+  print('C11 primality: kernel-certified %d/%d [%s]; hypothesis (gmpy2.is_prime only): %s' % (
+      len(certified), len(want), ' '.join(certified),
+      '; '.join('%s (%s)' % kv for kv in hypo.items()) or 'none'))
 
 
 def settle_known(rep, known):
